@@ -327,3 +327,50 @@ def const_eq_tests(body, tracer, const_bytes):
 
 def origin_keys(origins):
     return {o.key() for o in origins if o.kind != "mutated"}
+
+
+def errno_branches(body, tracer):
+    """Every branch that distinguishes a particular errno value: i32 switch arms and equality tests against
+    errno constants (libc ints, rustix Errno, Option<i32>, ErrorKind::OsError(Some(n))).
+    -> list of dict(errno, eq=[Edge], ne=[Edge], bb)"""
+    from .common import decode_bytes, errno_of_origin
+    cfg = cfg_of(body)
+    out = []
+    for blk in body.blocks:
+        if blk.cleanup or blk.idx in cfg.dead:
+            continue
+        t = blk.term
+        if t.kind == "switch" and t.raw["dty"] == "i32":
+            es = cfg.succ.get(blk.idx, [])
+            for e in es:
+                if e.label[1] == "otherwise":
+                    continue
+                out.append({"errno": e.label[1], "eq": [e], "ne": [x for x in es if x is not e], "bb": blk.idx})
+        for i, s in enumerate(blk.stmts):
+            if s.kind == "assign" and s.rv["k"] == "bin" and s.rv["op"] in ("Eq", "Ne"):
+                for o in s.rv_operands():
+                    if o.is_const and (o.const.get("item") or "").startswith("libc::E"):
+                        be = stmt_bool_edges(body, blk.idx, i)
+                        if be:
+                            eq, ne = (be["true"], be["false"]) if s.rv["op"] == "Eq" else (be["false"], be["true"])
+                            out.append({"errno": o.int_value(True), "eq": eq, "ne": ne, "bb": be["bb"]})
+    for t in body.calls("std::cmp::PartialEq::eq", "std::cmp::PartialEq::ne"):
+        en = None
+        for i in (0, 1):
+            for o in tracer.origins_of_arg(t, i):
+                if o.kind != "const":
+                    continue
+                ty = o.op.const.get("ty", "")
+                if "Errno" in ty:
+                    en = errno_of_origin(o)
+                elif "ErrorKind" in ty or "Option<i32>" in ty:
+                    raw = decode_bytes(o.const_bytes() or "")
+                    if len(raw) >= 8 and int.from_bytes(raw[:4], "little") == 1:
+                        en = int.from_bytes(raw[-4:], "little")
+        if en is None:
+            continue
+        be = bool_edges(body, t)
+        if be:
+            eq, ne = (be["true"], be["false"]) if t.callee.endswith("::eq") else (be["false"], be["true"])
+            out.append({"errno": en, "eq": eq, "ne": ne, "bb": be["bb"]})
+    return out
